@@ -75,7 +75,7 @@ def _worker(args):
     gen = mod.SCENARIOS[scenario][0]
     agg = {
         'evaluations': 0, 'probes': collections.Counter(), 'faults': collections.Counter(),
-        'shapes': set(), 'vt': 0.0, 'steps': 0, 'viol': {}, 'viol_counts': collections.Counter(),
+        'shapes': {}, 'vt': 0.0, 'steps': 0, 'viol': {}, 'viol_counts': collections.Counter(),
         'harness_errors': [], 'samples': [], 'skipped': 0, 'kf_runs': 0,
     }
     for i in indices:
@@ -88,7 +88,7 @@ def _worker(args):
         case['seed'] = run_seed
         case = normalise(case)
         res = run_case(mod, case)
-        agg['evaluations'] += 1
+        agg['evaluations'] += res.get('evaluations', 1) if not res['harness_error'] else 1
         if res['harness_error']:
             if len(agg['harness_errors']) < 3:
                 agg['harness_errors'].append((i, run_seed, res['harness_error'], case))
@@ -98,7 +98,7 @@ def _worker(args):
         agg['vt'] += res.get('vt', 0.0)
         agg['steps'] += res.get('steps', 0)
         if res.get('nontrivial', True) and res.get('shape'):
-            agg['shapes'].add(res['shape'])
+            agg['shapes'][res['shape']] = max(agg['shapes'].get(res['shape'], 0), res.get('distinct_extra', 1))
         if len(agg['samples']) < 1 and res.get('nontrivial', True):
             agg['samples'].append(case)
         if res['violations']:
@@ -107,7 +107,6 @@ def _worker(args):
             agg['viol_counts'][sig] += 1
             if sig not in agg['viol']:
                 agg['viol'][sig] = (i, case, msg, res.get('digest'))
-    agg['shapes'] = list(agg['shapes'])
     return agg
 
 
@@ -286,7 +285,7 @@ def main(argv=None) -> int:
             jobs.append((PROPS[prop], args.tier, seed, scenario, idx, deadline))
 
     total = {
-        'evaluations': 0, 'probes': collections.Counter(), 'faults': collections.Counter(), 'shapes': set(),
+        'evaluations': 0, 'probes': collections.Counter(), 'faults': collections.Counter(), 'shapes': {},
         'vt': 0.0, 'steps': 0, 'viol': {}, 'viol_counts': collections.Counter(), 'harness_errors': [],
         'samples': {}, 'skipped': 0, 'per_scenario': collections.Counter(), 'kf_runs': 0,
     }
@@ -302,7 +301,9 @@ def main(argv=None) -> int:
                 total['per_scenario'][j[3]] += agg['evaluations']
                 total['probes'].update(agg['probes'])
                 total['faults'].update(agg['faults'])
-                total['shapes'].update(f'{j[3]}:{s}' for s in agg['shapes'])
+                for s_, w_ in agg['shapes'].items():
+                    k_ = f'{j[3]}:{s_}'
+                    total['shapes'][k_] = max(total['shapes'].get(k_, 0), w_)
                 total['vt'] += agg['vt']
                 total['steps'] += agg['steps']
                 total['skipped'] += agg['skipped']
@@ -353,7 +354,7 @@ def main(argv=None) -> int:
     if not args.no_evidence and not harness_bad:
         write_evidence(mod, prop, args.tier, seed, total, wall, new_violations, rev, open_sigs)
     print(f'{prop} tier={args.tier} seed={seed} runs={total["evaluations"]} skipped={total["skipped"]} '
-          f'distinct={len(total["shapes"])} sim_s={total["vt"]:.0f} wall={wall:.1f}s '
+          f'distinct={sum(total["shapes"].values())} sim_s={total["vt"]:.0f} wall={wall:.1f}s '
           f'known={sum(1 for s in total["viol"] if s in open_sigs)} new={new_violations} exit={exit_code}')
     return exit_code
 
@@ -364,7 +365,7 @@ def write_evidence(mod, prop, tier, seed, total, wall, new_violations, rev, open
     samples = [json.loads(json.dumps(_trim(c), default=_jd)) for _, c in sorted(total['samples'].items())]
     cov = {
         'evaluations': total['evaluations'],
-        'distinct_nontrivial': len(total['shapes']),
+        'distinct_nontrivial': sum(total['shapes'].values()),
         'rule': info['rule'],
         'samples': samples[:4] or [{'note': 'no sample'}],
         'runs_per_scenario': dict(total['per_scenario']),
